@@ -131,7 +131,7 @@ Theorem judge_sound : forall c,
   agrees c = true -> C09_guard c = true ->
   match c with KMerge _ _ | KDrop _ _ | KRow _ _ _ _ => C09_ok c = true | _ => True end.
 Proof.
-  intros c A G. destruct c as [acts os|acts os|a b out send| | | | | | |]; auto.
+  intros c A G. destruct c as [acts os|acts os|a b out send| | | | | | | |]; auto.
   - cbn [agrees] in A. cbn [C09_guard] in G. cbn [C09_ok].
     assert (E : os = snd (m_run m_init acts)).
     { revert A. generalize (snd (m_run m_init acts)). clear G.
@@ -209,4 +209,36 @@ Proof.
   apply per_id_sameb_sound in G1.
   destruct (pipe_agrees_drained_sound fuel seeded nseed hist es _ A2 G1 G2) as [V F].
   split; [reflexivity|]. split; [exact V|]. apply views_eqb_same. exact F.
+Qed.
+
+(* KApiTimeout: an observation that agrees with the model's run of the measured scenario passes the
+   oracle as soon as the measured duration is inside the window (the only part that is not modelled) *)
+Lemma listZ_eqb_eq : forall a b : list Z, list_eqb Z.eqb a b = true -> a = b.
+Proof.
+  induction a as [|x a IH]; intros [|y b] H; simpl in H; try discriminate; auto.
+  apply andb_true_iff in H. destruct H as [H1 H2]. apply Z.eqb_eq in H1. f_equal; auto.
+Qed.
+
+Theorem judge_sound_timeout : forall resume errored ms later written got,
+  agrees (KApiTimeout resume errored ms later written got) = true ->
+  4000 <= ms <= 9000 ->
+  C09_ok (KApiTimeout resume errored ms later written got) = true.
+Proof.
+  intros resume errored ms later written got A [H1 H2].
+  assert (W : (4000 <=? ms) && (ms <=? 9000) = true)
+    by (apply andb_true_iff; split; [apply Z.leb_le|apply Z.leb_le]; assumption).
+  cbn [agrees] in A. cbn [C09_ok].
+  destruct resume.
+  - assert (E : SendTimeout.timeout_expected true = Some ([SendTimeout.ROk 1; SendTimeout.RErr 2; SendTimeout.ROk 3; SendTimeout.ROk 4], [1; 3]))
+      by (vm_compute; reflexivity).
+    rewrite E in A. apply andb_true_iff in A. destruct A as [A Hw]. apply andb_true_iff in A. destruct A as [A Hg].
+    apply listZ_eqb_eq in Hw, Hg. cbn in Hw. subst written got.
+    destruct errored, later; try discriminate. apply andb_true_iff in W. destruct W as [W1 W2].
+    rewrite W1, W2. vm_compute. reflexivity.
+  - assert (E : SendTimeout.timeout_expected false = Some ([SendTimeout.RErr 1; SendTimeout.ROk 2], []))
+      by (vm_compute; reflexivity).
+    rewrite E in A. apply andb_true_iff in A. destruct A as [A Hw]. apply andb_true_iff in A. destruct A as [A Hg].
+    apply listZ_eqb_eq in Hw, Hg. cbn in Hw. subst written got.
+    destruct errored, later; try discriminate. apply andb_true_iff in W. destruct W as [W1 W2].
+    rewrite W1, W2. reflexivity.
 Qed.
